@@ -7,7 +7,13 @@ Require Import ExtrOcamlBasic.
 From DV Require Import Lib.Base Wire.HeaderEdit Stamp.Stamp.
 Extraction Language OCaml.
 
-Definition x_step (max_completed : N) (b : bus) (e : event) : outcome :=
-  step max_completed [] (fun _ _ _ => true) (fun _ _ _ => []) (fun _ _ _ => false) (fun _ _ => []) b e.
+(* service files exist for the names listed with the history; a RequestName is granted iff the name
+   is not a unique name and nobody owns it (the generator asks for activatable names with DO_NOT_QUEUE) *)
+Definition x_granted (b : bus) (c : conn) (name : bytes) : bool :=
+  negb (is_owned b name) && negb (is_prefix [58%N] name) && negb (bytes_eqb name drv_name).
+
+Definition x_step (max_completed : N) (acts : list bytes) (b : bus) (e : event) : outcome :=
+  step max_completed [] (fun _ _ _ => true) (fun _ _ _ => []) (fun _ _ _ => false) (fun _ _ => [])
+       (fun d => existsb (bytes_eqb d) acts) x_granted b e.
 
 Extraction "model_stamp.ml" bus0 x_step mint unique_name stamp scrub from_driver swap_order str_field drv_name spec_decode_message spec_encode_message.
